@@ -1,6 +1,7 @@
 package main
 
 import (
+	"errors"
 	"fmt"
 	"math/big"
 	"reflect"
@@ -600,7 +601,100 @@ func c17Chain(r *Run) {
 	}
 }
 
+// requests at the boundaries of the protocol's own validation: whatever passes Validate must give a constructor
+// result that consensus can accept (no wrapped sizes, window after proof height)
+func c17Validate(r *Run) {
+	sk := types.GeneratePrivateKey()
+	hostKey := sk.PublicKey()
+	signed := func(tip uint64) rhp4.HostPrices {
+		p := r.c17Prices(tip)
+		p.Signature = sk.SignHash(p.SigHash())
+		return p
+	}
+	for it := 0; it < r.pick(200, 8000); it++ {
+		sectors := uint64(r.rng.IntN(12))
+		fc := types.V2FileContract{Filesize: sectors * rhp4.SectorSize, Capacity: (sectors + uint64(r.rng.IntN(3))) * rhp4.SectorSize,
+			ProofHeight: 1000, ExpirationHeight: 1144, RenterOutput: types.SiacoinOutput{Value: types.Siacoins(100)}, HostOutput: types.SiacoinOutput{Value: types.Siacoins(100)},
+			MissedHostValue: types.Siacoins(50), TotalCollateral: types.Siacoins(60)}
+		prices := signed(10)
+		// free sectors: index sets around the last sector, duplicates, everything
+		var idx []uint64
+		switch r.rng.IntN(6) {
+		case 0: // every sector
+			for i := uint64(0); i < sectors; i++ {
+				idx = append(idx, i)
+			}
+		case 1: // every sector and one past the end
+			for i := uint64(0); i <= sectors; i++ {
+				idx = append(idx, i)
+			}
+		case 2:
+			idx = []uint64{sectors}
+		case 3:
+			if sectors > 0 {
+				idx = []uint64{sectors - 1, sectors - 1}
+			}
+		case 4:
+			idx = []uint64{^uint64(0)}
+		default:
+			for i := uint64(0); i < sectors; i++ {
+				if r.rng.IntN(2) == 0 {
+					idx = append(idx, i)
+				}
+			}
+		}
+		req := rhp4.RPCFreeSectorsRequest{Prices: prices, Indices: idx}
+		r.count("oracle-validate-free")
+		if err := req.Validate(hostKey, fc); err == nil {
+			var rev types.V2FileContract
+			var rerr error
+			if pan, _ := try(func() { rev, _, rerr = rhp4.ReviseForFreeSectors(fc, prices, types.Hash256{1}, len(idx)) }); pan {
+				rerr = errors.New("cost overflow")
+			}
+			if rerr == nil && (rev.Filesize > rev.Capacity || rev.Filesize != fc.Filesize-rhp4.SectorSize*uint64(len(idx)) || uint64(len(idx)) > sectors) {
+				r.violate("c17.validated-request-invalid-revision", "RPCFreeSectorsRequest with indices %v passes Validate on a contract of %d sectors, and ReviseForFreeSectors yields filesize %d / capacity %d", idx, sectors, rev.Filesize, rev.Capacity)
+			}
+		} else {
+			ok := true
+			seen := map[uint64]bool{}
+			for _, i := range idx {
+				if i >= sectors || seen[i] {
+					ok = false
+				}
+				seen[i] = true
+			}
+			if ok {
+				r.violate("c17.valid-request-rejected", "RPCFreeSectorsRequest with distinct in-range indices %v (contract of %d sectors) is rejected: %v", idx, sectors, err)
+			}
+		}
+		// sector roots: offset / length windows
+		off, ln := uint64(r.rng.IntN(int(sectors)+2)), uint64(r.rng.IntN(int(sectors)+3))
+		rr := rhp4.RPCSectorRootsRequest{Prices: prices, Offset: off, Length: ln}
+		inRange := ln > 0 && off <= sectors && ln <= sectors-off
+		if err := rr.Validate(hostKey, fc); (err == nil) != inRange {
+			r.violate("c17.sector-roots-validate", "RPCSectorRootsRequest offset %d length %d on %d sectors: Validate says %v", off, ln, sectors, err)
+		}
+		// renewals: proof heights at the top of the range must not wrap the expiration height
+		ph := []uint64{fc.ProofHeight + 1, ^uint64(0) - rhp4.ProofWindow, ^uint64(0) - rhp4.ProofWindow + 1, ^uint64(0), ^uint64(0) - 1000}[r.rng.IntN(5)]
+		rn := rhp4.RPCRenewContractRequest{Prices: prices, MinerFee: types.NewCurrency64(1), Basis: types.ChainIndex{Height: 1},
+			Renewal: rhp4.RPCRenewContractParams{Allowance: types.Siacoins(1), Collateral: types.ZeroCurrency, ProofHeight: ph}}
+		r.count("oracle-validate-renew")
+		var verr error
+		if pan, _ := try(func() { verr = rn.Validate(hostKey, types.ChainIndex{Height: 10}, fc, types.MaxCurrency, []uint64{1 << 20, ^uint64(0)}[r.rng.IntN(2)]) }); pan {
+			// (absurd price x duration products overflow inside Validate; hosts bound the duration: not counted)
+			r.count("validate-renew-overflow")
+		} else if verr == nil {
+			var ren types.V2FileContractRenewal
+			pan, _ := try(func() { ren, _ = rhp4.RenewContract(fc, prices, types.Address{}, rn.Renewal) })
+			if !pan && ren.NewContract.ExpirationHeight <= ren.NewContract.ProofHeight {
+				r.violate("c17.validated-request-invalid-renewal", "RPCRenewContractRequest with proof height %d passes Validate, and RenewContract yields expiration height %d", ph, ren.NewContract.ExpirationHeight)
+			}
+		}
+	}
+}
+
 func runC17(r *Run) {
+	c17Validate(r)
 	c17Sequences(r)
 	c17V1(r)
 	c17Chain(r)
